@@ -30,7 +30,7 @@ class ConnH(explore.Harness):
         self.p = p
         self.key = C.det_bytes("c18-conn", "bcast")
         base = p.get("base", 65534)
-        self.rig = BleRig(seed=p.get("seed", 0), bkey=self.key, gsn=base)
+        self.rig = BleRig(seed=p.get("seed", 0), bkey=self.key, gsn=base, ev_flags=tuple(p.get("ev_flags", ())))
         self.loop, self.pairing, self.acc = self.rig.loop, self.rig.pairing, self.rig.acc
         self.adv_id = bytes.fromhex(self.acc.ident.id.decode().replace(":", ""))
         self.old = adv_bytes(self.adv_id, seal(OLD_GSN, OLD_GSN, 10, struct.pack("<Q", MARK), key=self.key, aad=self.adv_id))
@@ -173,11 +173,22 @@ class ConnH(explore.Harness):
                 g, payload = self.last_genuine
                 fresh = False
             before = (self.pairing.description.state_num if self.pairing.description else None, len(self.log))
+            quiet = self._link() is None and not _canon.tasks_sig(self.loop) and not any(not f.done() for f in getattr(self.rig, "connecting", []))
             try:
                 self.rig.controller._device_detected(BLEDevice("00:11:22:33:44:55", "Acc", {}), AdvertisementData(local_name="Acc", manufacturer_data={76: payload}, service_data={}, service_uuids=[], tx_power=None, rssi=-60, platform_data=()))
             except Exception as e:  # noqa: BLE001
                 self.viol.append((f"scanner-callback-raises:{type(e).__name__}:connected", {"err": str(e)[:160]}))
             new = [ev for ev in self.log[before[1]:] if any(v.get("value") == 0x4000 + g % 1000 for v in ev.values())]
+            if fresh and new:
+                self.acc.chars[10].value = 0x4000 + g % 1000  # (the accessory that broadcasts this value holds it)
+            if not fresh and before[0] == g and quiet:
+                # a further copy of the broadcast whose state number is the tracked one (advertisements repeat), with nothing else going on:
+                # the event it reports was delivered when the first copy came in.  Whatever the pairing does about the copy, the listeners
+                # do not hear of that change a second time
+                self.loop.run_until_idle()
+                again = [ev for ev in self.log[before[1]:] if any(v.get("value") == 0x4000 + g % 1000 for v in ev.values())]
+                if again:
+                    self.viol.append(("connected:event-of-a-repeated-broadcast-delivered-again", {"gsn": g, "delivered": [{str(k): v for k, v in ev.items()} for ev in again], "connected_for_it": self._link() is not None}))
             if fresh:
                 self.last_genuine = (g, payload)
                 if new:
